@@ -281,13 +281,14 @@ theorem repLoop_sim {α} (U : Nat → Nat → Inp → M → R α) (u : Nat → I
     (mx : Option Nat)
     (hU : ∀ idx i S trk, u idx i S ≠ .oof → EvRel (fun n => U n idx i ⟨S, trk⟩) (u idx i S)) :
     ∀ (b : Nat) (B : Nat → Nat), (∀ k, ∃ n0, ∀ n, n0 ≤ n → k ≤ B n) → ∀ idx i S trk acc,
+      acc.length = idx →
       specRepLoop u min mx b idx i S ≠ .oof →
       EvRel (fun n => repLoop (U n) min mx (B n) idx i ⟨S, trk⟩ acc) (specRepLoop u min mx b idx i S) := by
   intro b
   induction b with
-  | zero => intro B hB idx i S trk acc hne; exact absurd rfl hne
+  | zero => intro B hB idx i S trk acc _ hne; exact absurd rfl hne
   | succ b ih =>
-    intro B hB idx i S trk acc hne
+    intro B hB idx i S trk acc hlen hne
     obtain ⟨nB, hnB⟩ := hB 1
     have hsucc : ∀ n, nB ≤ n → ∃ k, B n = k + 1 := fun n hn => ⟨B n - 1, by have := hnB n hn; omega⟩
     simp only [specRepLoop] at hne ⊢
@@ -299,13 +300,13 @@ theorem repLoop_sim {α} (U : Nat → Nat → Inp → M → R α) (u : Nat → I
         obtain ⟨k, hk⟩ := hsucc n hn
         show repLoop (U n) min (some idx) (B n) idx i ⟨S, trk⟩ acc = _
         rw [hk]
-        simp only [repLoop, if_true, hlt]
+        simp only [repLoop, if_true, repDone_some, hlen, hlt]
       · simp only [hlt, if_false]
         refine EvRel.mk_ok' nB i ⟨S, trk⟩ acc.reverse rfl (fun n hn => ?_)
         obtain ⟨k, hk⟩ := hsucc n hn
         show repLoop (U n) min (some idx) (B n) idx i ⟨S, trk⟩ acc = _
         rw [hk]
-        simp only [repLoop, if_true, hlt, if_false]
+        simp only [repLoop, if_true, repDone_some, hlen, hlt, if_false]
     · simp only [hmax, if_false] at hne ⊢
       cases hu : u idx i S with
       | oof => rw [hu] at hne; exact absurd rfl hne
@@ -329,6 +330,7 @@ theorem repLoop_sim {α} (U : Nat → Nat → Inp → M → R α) (u : Nat → I
           simp only [repLoop, hmax, if_false]
           rw [h1 n (by omega)]
           simp only [restoreOnNone, hlt, if_false]
+          exact repDone_of_le _ _ _ _ _ (by omega)
       | ok i1 S1 =>
         obtain ⟨n1, t1, v1, h1⟩ := (hU idx i S trk (by rw [hu]; nofun)).ok hu
         rw [hu] at hne
@@ -337,7 +339,8 @@ theorem repLoop_sim {α} (U : Nat → Nat → Inp → M → R α) (u : Nat → I
           intro k
           obtain ⟨n0, h0⟩ := hB (k + 1)
           exact ⟨n0, fun n hn => by have := h0 n hn; simp only []; omega⟩
-        obtain ⟨n2, r2, hr2, h2⟩ := ih (fun n => B n - 1) hB' (idx + 1) i1 S1 t1 (v1 :: acc) hne
+        obtain ⟨n2, r2, hr2, h2⟩ := ih (fun n => B n - 1) hB' (idx + 1) i1 S1 t1 (v1 :: acc)
+          (by simp only [List.length_cons, hlen]) hne
         refine ⟨n1 + n2 + nB, r2, hr2, fun n hn => ?_⟩
         obtain ⟨k, hk⟩ := hsucc n (by omega)
         show repLoop (U n) min mx (B n) idx i ⟨S, trk⟩ acc = _
